@@ -1,6 +1,7 @@
 package main
 
 import (
+	"fmt"
 	"go/ast"
 	"go/parser"
 	"go/token"
@@ -10,17 +11,30 @@ import (
 
 // parseFixed reads a hand-written pattern string into the harness' own pattern tree (independent of typematch.Parse):
 // $*_ and $name are replaced by placeholder identifiers and the result is parsed as a Go type expression.
-func parseFixed(s string) *px {
+func parseFixed(s string) *px { return parseWith(s, nil) }
+
+// qualResolver decides what a qualified name `pkg.Name` of a pattern string stands for (nil result: unresolvable).
+type qualResolver func(pkg, name string) *px
+
+// parseWith is parseFixed with the qualified names resolved by res (nil: the fixed leaf tables of the pool).
+func parseWith(s string, res qualResolver) *px {
 	src := strings.ReplaceAll(s, "$*_", "SEQ__")
 	src = strings.ReplaceAll(src, "$", "VAR_")
 	e, err := parser.ParseExpr(src)
 	if err != nil {
 		return nil
 	}
-	return fromExpr(e)
+	return (&patReader{res: res}).fromExpr(e)
 }
 
-func fromList(fl *ast.FieldList) ([]*px, bool) {
+type patReader struct{ res qualResolver }
+
+// namedLeaf: a qualified name that stands for the named type `name` of the package with import path `path`
+func namedLeaf(txt, path, name string) *px {
+	return &px{k: "leaf", s: txt, pat: txt, coq: fmt.Sprintf("PNamed %q %q", path, name), npath: path, nname: name}
+}
+
+func (r *patReader) fromList(fl *ast.FieldList) ([]*px, bool) {
 	var out []*px
 	if fl == nil {
 		return nil, true
@@ -29,7 +43,7 @@ func fromList(fl *ast.FieldList) ([]*px, bool) {
 		if len(f.Names) != 0 {
 			return nil, false
 		}
-		p := fromExpr(f.Type)
+		p := r.fromExpr(f.Type)
 		if p == nil {
 			return nil, false
 		}
@@ -38,10 +52,10 @@ func fromList(fl *ast.FieldList) ([]*px, bool) {
 	return out, true
 }
 
-func fromExpr(e ast.Expr) *px {
+func (r *patReader) fromExpr(e ast.Expr) *px {
 	switch e := e.(type) {
 	case *ast.ParenExpr:
-		return fromExpr(e.X)
+		return r.fromExpr(e.X)
 	case *ast.Ident:
 		if e.Name == "SEQ__" {
 			return &px{k: "seq"}
@@ -56,6 +70,9 @@ func fromExpr(e ast.Expr) *px {
 		}
 	case *ast.SelectorExpr:
 		txt := types.ExprString(e)
+		if id, ok := e.X.(*ast.Ident); ok && r.res != nil && txt != "unsafe.Pointer" {
+			return r.res(id.Name, e.Sel.Name)
+		}
 		for _, d := range patLeaves {
 			if d.pat == txt {
 				return leafNode(d)
@@ -67,11 +84,11 @@ func fromExpr(e ast.Expr) *px {
 			}
 		}
 	case *ast.StarExpr:
-		if p := fromExpr(e.X); p != nil {
+		if p := r.fromExpr(e.X); p != nil {
 			return &px{k: "ptr", subs: []*px{p}}
 		}
 	case *ast.ArrayType:
-		p := fromExpr(e.Elt)
+		p := r.fromExpr(e.Elt)
 		if p == nil {
 			return nil
 		}
@@ -85,12 +102,12 @@ func fromExpr(e ast.Expr) *px {
 			return &px{k: "arr", s: lit.Value, subs: []*px{p}}
 		}
 	case *ast.MapType:
-		k, v := fromExpr(e.Key), fromExpr(e.Value)
+		k, v := r.fromExpr(e.Key), r.fromExpr(e.Value)
 		if k != nil && v != nil {
 			return &px{k: "map", subs: []*px{k, v}}
 		}
 	case *ast.ChanType:
-		p := fromExpr(e.Value)
+		p := r.fromExpr(e.Value)
 		if p == nil {
 			return nil
 		}
@@ -102,13 +119,13 @@ func fromExpr(e ast.Expr) *px {
 		}
 		return &px{k: "chan", s: dir, subs: []*px{p}}
 	case *ast.FuncType:
-		ps, ok1 := fromList(e.Params)
-		rs, ok2 := fromList(e.Results)
+		ps, ok1 := r.fromList(e.Params)
+		rs, ok2 := r.fromList(e.Results)
 		if ok1 && ok2 {
 			return &px{k: "func", n: len(ps), subs: append(ps, rs...)}
 		}
 	case *ast.StructType:
-		fs, ok := fromList(e.Fields)
+		fs, ok := r.fromList(e.Fields)
 		if ok {
 			return &px{k: "struct", subs: fs}
 		}
